@@ -4,7 +4,7 @@ from contracts import rt_walk
 from pyvc.report import Report
 from pyvc import runtime
 from pyvc.solve import cvc5_check
-from .common import run_rt
+from .common import run_rt, dependency_layer
 from . import wiring
 
 
@@ -46,4 +46,5 @@ def run(tier, seed):
     rep.assumptions.append('termination (acyclic structures) is not proved')
     rep.assumptions.append('the three comprehensions of traverse are recognised syntactically against the definition of occs (parent, field, child); '
                            'any other shape is out of subset (UNDECIDED, with a bounded native stand-in), never a pass')
+    dependency_layer(rep, tier)
     return rep.finish()
